@@ -37,7 +37,7 @@ func (s *Scope) evalInterval(e ast.Expr, depth int, assumptions *[]string) ival 
 		// unique local definition
 		var def ast.Expr
 		n := 0
-		walkAll(s.Body, func(m ast.Node) bool {
+		s.walk(func(m ast.Node) bool {
 			if as, ok := m.(*ast.AssignStmt); ok {
 				for i, l := range as.Lhs {
 					if identObj(s.Info, l) == o {
@@ -52,6 +52,7 @@ func (s *Scope) evalInterval(e ast.Expr, depth int, assumptions *[]string) ival 
 			}
 			return true
 		})
+
 		if n == 1 && def != nil {
 			return s.evalInterval(def, depth+1, assumptions)
 		}
